@@ -44,6 +44,7 @@ def _hp(m, ev0, alg):
 def run(ctx):
   exhaustive(ctx)
   fresh_initial_state(ctx)
+  driver_wiring(ctx)
   fd_bookkeeping(ctx)
   closed_forms(ctx)
   from . import C09
@@ -78,6 +79,130 @@ def fresh_initial_state(ctx):
   ctx.ob('C16.O4', fi.short, 'calling init() builds the state', okc and len({c.callee for c in late}) == len(inits),
          f'invoking the returned init callable must call the selected init function (found calls to {sorted({c.callee.split(".")[-1] for c in late})})',
          ctx.loc(fi), sample='bound_init_fn() -> init(w_shape, hparams)')
+
+
+def _static_argnames(fi):
+  """names listed in static_argnames of the jax.jit decorator of fi (None when fi is not jitted)"""
+  import ast
+  for d in fi.node.decorator_list:
+    if 'jit' not in ast.unparse(d):
+      continue
+    for kw in (x for n in ast.walk(d) if isinstance(n, ast.Call) for x in n.keywords):
+      if kw.arg == 'static_argnames':
+        try:
+          v = ast.literal_eval(kw.value)
+        except ValueError:
+          raise AnalysisError(f'{fi.short}: static_argnames is not a literal')
+        return [v] if isinstance(v, str) else list(v)
+    return []
+  return None
+
+
+def _equality_holes(ci):
+  """why instances of class ci can compare equal although they differ (None: identity or full value comparison)"""
+  import ast
+  for nm in ('__eq__', '__hash__'):
+    if nm in ci.methods:
+      return f'{ci.name} defines {nm}'
+  if not ci.is_record or ci.is_namedtuple:
+    return None
+  for d in ci.node.decorator_list:
+    if isinstance(d, ast.Call) and any(kw.arg == 'eq' and isinstance(kw.value, ast.Constant) and kw.value.value is False for kw in d.keywords):
+      return None       # eq=False: compared by identity
+  for st in ci.node.body:
+    if isinstance(st, ast.AnnAssign) and isinstance(st.value, ast.Call) and 'field' in ast.unparse(st.value.func):
+      for kw in st.value.keywords:
+        if kw.arg in ('compare', 'hash') and isinstance(kw.value, ast.Constant) and kw.value.value is False:
+          return f'field `{ast.unparse(st.target)}` of {ci.name} is excluded from comparison ({kw.arg}=False)'
+  return None
+
+
+def driver_wiring(ctx):
+  """O5 (oco/train.py): `run_dataset` runs the history with the update function, the initial state and the loss made
+  from ITS arguments: the `update_fn` handed to the compiled scan is the second component of
+  `generate_init_update(dataset.w_shape, hparams)` (or a record carrying it), the state is the first component called
+  once, the loss is `value_and_grad(dataset.loss)`.  jax.jit keys its cache on the static arguments by ==/hash: a
+  static argument whose class compares equal although a field differs (a dataclass field with compare=False, a
+  hand-written __eq__) makes a later run with other hyper-parameters reuse the trace - and the lr / delta - of an earlier one."""
+  m = ctx.model
+  TM = 'oco.train'
+  fr = m.func(TM, 'run_dataset')
+  fc = m.func(TM, '_compiled_run_dataset')
+  ctx.analysed(fr, fc)
+  static = _static_argnames(fc)
+  if static is None:
+    raise AnalysisError('_compiled_run_dataset is not jitted: the driver rule has lost its anchor')
+  ev = evaluator(m, opaque={'_compiled_run_dataset', 'generate_init_update', 'load_dataset'})
+  ev.run(fr)
+  ctx.evaluations += 1
+  calls = [c for c in ev.calls if c.callee.endswith('._compiled_run_dataset')]
+  ctx.need('C16.O5', len(calls), 1, 'call of the compiled scan in run_dataset')
+  HP = sym('param', fr.short, 'hparams')
+  gen = [c for c in ev.calls if c.callee.endswith('.generate_init_update')]
+  data = [c for c in ev.calls if c.callee.endswith('.load_dataset')]
+  ctx.need('C16.O5', len(data), 1, 'load_dataset call in run_dataset')
+  DS = data[0].result
+
+  def field(t, name):
+    return t.op == 'attr' and t.args[0] is DS and t.args[1] == name
+
+  okg = len(gen) == 1 and gen[0].args.get('hparams') is HP and field(gen[0].args.get('w_shape', NONE), 'w_shape')
+  ctx.ob('C16.O5', fr.short, 'the (init, update) pair is made from the caller\'s hparams', okg,
+         f'run_dataset must call generate_init_update(dataset.w_shape, hparams) with its own hparams; got {[show(v, maxdepth=3) for c in gen for v in c.args.values()]}',
+         ctx.loc(fr), sample='generate_init_update(dataset.w_shape, hparams)')
+  pair = gen[0].result if gen else NONE
+
+  def is_component(t, k):
+    return t.op == 'sub' and t.args[0] is pair and is_const(t.args[1], k)
+
+  for c in calls:
+    uf = c.args.get('update_fn', NONE)
+    carried = is_component(uf, 1) or (uf.op == 'rec' and any(is_component(v, 1) for _, v in uf.args[1]))
+    ctx.ob('C16.O5', fr.short, 'update_fn is the update function made from hparams', carried,
+           f'the update function handed to the compiled scan must be the one generate_init_update returned; got `{show(uf, maxdepth=4)[:160]}`', ctx.loc(fr),
+           sample='init_fn, update_fn = generate_init_update(..); _compiled_run_dataset(.., update_fn, ..)')
+    st = c.args.get('state', NONE)
+    inits = [y for y in walk(st) if y.op == 'call' and is_component(y.args[0], 0)]
+    ctx.ob('C16.O5', fr.short, 'the history starts from init_fn()', bool(inits) and not any(is_component(y, 1) for y in walk(st)),
+           f'the state handed to the compiled scan must be built from init_fn(); got `{show(st, maxdepth=4)[:160]}`', ctx.loc(fr), sample='initial_state = init_fn()')
+    lg = c.args.get('loss_and_grad', NONE)
+    oklg = is_ext_call(lg, 'jax.value_and_grad') and len(lg.args[1]) == 1 and not lg.args[2] and field(lg.args[1][0], 'loss')
+    ctx.ob('C16.O5', fr.short, 'loss_and_grad = value_and_grad(dataset.loss)', oklg,
+           f'the gradient fed to the update must be that of the dataset loss; got `{show(lg, maxdepth=4)[:160]}`', ctx.loc(fr), sample='jax.value_and_grad(dataset.loss)')
+    for nm in static:
+      v = c.args.get(nm, NONE)
+      for y in walk(v):
+        if y.op == 'rec':
+          ci = m.classes.get(y.args[0])
+          if ci is None:
+            continue
+          hole = _equality_holes(ci)
+          ctx.ob('C16.O5', fr.short, f'static argument `{nm}` is compared in full by the jit cache', hole is None,
+                 f'`{nm}` is a static argument of the jitted scan and is an instance of {ci.name}, but {hole}: two runs whose hyper-parameters differ can '
+                 f'compare equal and share one trace (the second run then uses the first run\'s lr / delta)', ctx.loc(fr), sample='closures / records compared field by field')
+  # the compiled scan itself: one update per row, fed with the loss and gradient of the current iterate on that row
+  rows = [f for q, f in m.module(TM).functions.items() if q.startswith('_compiled_run_dataset.')]
+  UF = sym('cfg', fc.short, 'update_fn')           # read from the enclosing function's scope by the row function
+  LG = sym('cfg', fc.short, 'loss_and_grad')
+  ucalls = []
+  for fp in rows:
+    ev2 = evaluator(m)
+    r2 = ev2.run(fp)
+    ctx.analysed(fp)
+    ucalls += [y for y in walk(r2) if y.op == 'call' and y.args[0] is UF]
+  ucalls = list(dict.fromkeys(ucalls))
+  ctx.need('C16.O5', len(ucalls), 1, 'update_fn application in the compiled scan')
+  for u in ucalls:
+    a = list(u.args[1])
+    okf = len(a) == 3 and all(x.op == 'sub' and x.args[0].op == 'call' and x.args[0].args[0] is LG for x in a[1:]) and \
+        is_const(a[1].args[1], 0) and is_const(a[2].args[1], 1) and a[1].args[0] is a[2].args[0]
+    if okf:
+      la = a[1].args[0].args[1]
+      # loss_and_grad(w, x[n], y[n]): the current iterate and one row, the same row of x and y
+      okf = len(la) == 3 and la[0].op == 'sub' and is_const(la[0].args[1], 'w') and la[1].op == 'sub' and la[2].op == 'sub' and la[1].args[1] is la[2].args[1]
+    ctx.ob('C16.O5', fc.short, 'update_fn(state, f, g) with (f, g) = loss_and_grad(w, x[n], y[n])', okf,
+           f'each row must update the state with the loss and gradient of the current iterate; got `{show(u, maxdepth=4)[:200]}`', ctx.loc(fc),
+           sample='f, g = loss_and_grad(state["w"], r, y[ix]); state = update_fn(state, f, g)')
 
 
 def exhaustive(ctx):
